@@ -87,7 +87,8 @@ fn c16_beta_index_search() -> (bool, String) {
     }
 
     let mut found: Option<String> = None;
-    for len in 1..=6 {
+    let max_len = crate::bound(6, 8);
+    for len in 1..=max_len {
         let mut check = |s: &[usize], slots: &[Option<usize>; 3]| -> bool {
             let mut idx = BetaMemoryIndex::new("user_id".to_string());
             let mut cur: [Option<usize>; SLOTS] = [None; SLOTS];
@@ -118,7 +119,7 @@ fn c16_beta_index_search() -> (bool, String) {
     }
     match found {
         Some(d) => (true, d),
-        None => (false, format!("{} lookups (4 keys after every valid add/remove history of <= 6 operations over 3 slots x 4 fact shapes): each returned exactly the live facts carrying the key", tried)),
+        None => (false, format!("{} lookups (4 keys after every valid add/remove history of <= {} operations over 3 slots x 4 fact shapes): each returned exactly the live facts carrying the key", tried, max_len)),
     }
 }
 
@@ -209,9 +210,23 @@ fn c16_memo_search() -> (bool, String) {
             }
         }
     }
-    // clear() in between: still equal
+    // thorough tier: every sequence of 3 calls
+    if crate::thorough() {
+        for &a in &calls {
+            for &b in &calls {
+                for &c in &calls {
+                    tried += 1;
+                    if let Some(d) = run(&[a, b, c]) {
+                        return (true, d);
+                    }
+                }
+            }
+        }
+    }
+    // clear() in between: still equal (second call: the first 12 calls; thorough tier: every call)
+    let n_second = crate::bound(12, calls.len());
     for &a in &calls {
-        for &b in &calls[..12] {
+        for &b in &calls[..n_second] {
             let mut ev = MemoizedEvaluator::new();
             let r1 = ev.evaluate(&ns[a.0], &fs[a.1], |n, f| n.evaluate_typed(f));
             ev.clear();
@@ -223,7 +238,7 @@ fn c16_memo_search() -> (bool, String) {
             }
         }
     }
-    (false, format!("{} call sequences over {} nodes x {} fact sets with pairwise different renderings: memoised == direct every time", tried, ns.len(), fs.len()))
+    (false, format!("{} call sequences ({}) over {} nodes x {} fact sets with pairwise different renderings: memoised == direct every time", tried, if crate::thorough() { "every sequence of <= 3 calls; a, clear, b, a" } else { "every sequence of <= 2 calls; a,b,a and a,a,b; a, clear, b, a" }, ns.len(), fs.len()))
 }
 
 /// NEW FINDING (reproduces on the current tree): the memo key hashes FactValue::as_str(), which renders Integer(1) and String("1")
